@@ -52,6 +52,7 @@ import enum
 import functools
 import itertools
 import time
+import traceback
 from typing import Any, Generic, Self, TypeVar
 import uuid
 
@@ -196,11 +197,28 @@ class _RunnerIterator(iter_utils.MultiplexIterator[_ValueT]):
       if self._agg_error is not None:
         # This stage failed, it did not finish: a consumer that skipped the
         # error as an element error (the next stage with ignore_error) and asks
-        # again must not see a normal end of the iteration.
+        # again must not see a normal end of the iteration. Raised once: a
+        # consumer that ignores every error (an ignore_error queue) must not
+        # spin on it forever, afterwards the iterator is simply exhausted.
+        error, self._agg_error = self._agg_error, None
         raise RuntimeError(
-            f'"{self.name}" stopped after its aggregation failed.'
-        ) from self._agg_error
-      batch_output = super().__next__()
+            f'"{self.name}" stopped after it failed.'
+        ) from error
+      try:
+        batch_output = super().__next__()
+      except StopIteration:
+        raise
+      except Exception as e:
+        # An error that leaves the operators of this stage (e.g., raised behind
+        # the per-element call that ignore_error skips) ends its iterator: the
+        # stage failed, it is not exhausted.
+        self._iterator = iter(())
+        self._agg_error = e
+        # The finished frames of the traceback still refer to the suspended
+        # generators of this stage (e.g., a sink waiting to be closed): keeping
+        # the error must not keep them from being finalized.
+        traceback.clear_frames(e.__traceback__)
+        raise
       self.batch_index += 1
       if self._with_agg:
         try:
